@@ -9,6 +9,8 @@ func init() {
 	vrt.Register("VerifC03EndToEnd", VerifC03EndToEnd)
 	vrt.Register("VerifC03Regular", VerifC03Regular)
 	vrt.Register("VerifC03Golomb", VerifC03Golomb)
+	vrt.Register("VerifC03Component", VerifC03Component)
+	vrt.Register("VerifC03BitChannel", VerifC03BitChannel)
 }
 
 func c03Pixels(name string, n, P int) []byte {
@@ -169,4 +171,112 @@ func VerifC03Golomb() {
 	t, err := gr.ReadBits(7)
 	vrt.Assert(err == nil && int(t) == trailer, "C03 following bits are not disturbed")
 	vrt.Out("got", got)
+}
+
+// VerifC03Component: the single-component coder (encodeComponent /
+// decodeComponent, whose regular-mode code is an inline twin of
+// encodeRegularSample) on a 3x2 image whose first five samples are concrete
+// (they exercise run mode, run interruption and one regular sample from the
+// initial state) and whose LAST sample is symbolic and coded in regular mode
+// from an arbitrary (havoc'd) state of its context.
+func VerifC03Component() {
+	Ps := []int{7, 12, 16, 8, 2, 3, 4, 5, 6, 9, 10, 11, 13, 14, 15}
+	P := Ps[vrt.Choice("P", 0, vrt.Param("nP", 2)-1)]
+	maxVal := 1<<uint(P) - 1
+	hi := maxVal - maxVal/4
+	variant := vrt.Choice("variant", 0, 1)
+	// row 0: flat run then an outlier; row 1: flat, then a symbolic last sample
+	row0 := []int{0, 0, hi}
+	row1 := []int{0, 0}
+	if variant == 1 { // the same shape mirrored in value: negative context sign
+		row0 = []int{maxVal, maxVal, maxVal - hi}
+		row1 = []int{maxVal, maxVal}
+	}
+	x := vrt.Int("x", 0, maxVal)
+	epix := []int{row0[0], row0[1], row0[2], row1[0], row1[1], x}
+	enc := NewEncoder(3, 2, 1, P)
+	dec := c03Decoder(3, 2, 1, P)
+	// context of the last sample: neighbours ra=row1[1], rb=row0[2], rc=row0[1], rd=rb
+	q1, q2, q3 := enc.quantizer.ComputeContext(row1[1], row0[2], row0[1], row0[2])
+	qs := ComputeContextID(q1, q2, q3)
+	idx := qs
+	if idx < 0 {
+		idx = -idx
+	}
+	N := vrt.Int("N", 1, 64)
+	A := vrt.Int("A", 0, 1<<24-1)
+	B := vrt.Int("B", -63, 0)
+	C := vrt.Int("C", -128, 127)
+	vrt.Assume(B > -N)
+	*enc.contextTable.contexts[idx] = Context{A: A, N: N, B: B, C: C}
+	*dec.contextTable.contexts[idx] = Context{A: A, N: N, B: B, C: C}
+	var buf bytes.Buffer
+	gw := NewGolombWriter(&buf)
+	var tape, tapeK []int
+	pos := 0
+	if vrt.Symbolic() {
+		vrt.StubWith("(*"+c03Pkg+".GolombWriter).EncodeMappedValue", func(g *GolombWriter, k, mapped, limit, qbpp int) error {
+			vrt.Assert((mapped>>uint(k)) < limit-(qbpp+1) || mapped-1 < 1<<uint(qbpp), "C03 mapped error is representable by the limited-length Golomb code (escape holds mapped-1 in qbpp bits)")
+			tape = append(tape, mapped)
+			tapeK = append(tapeK, k)
+			return nil
+		})
+		vrt.StubWith("(*"+c03Pkg+".GolombReader).DecodeValue", func(g *GolombReader, k, limit, qbpp int) (int, error) {
+			vrt.Assert(pos < len(tape) && k == tapeK[pos], "C03 decoder derives the same Golomb parameter k")
+			v := tape[pos]
+			pos++
+			return v, nil
+		})
+	}
+	src := append([]int{}, epix...)
+	err := enc.encodeComponent(gw, epix, 0)
+	vrt.Assert(err == nil, "C03 encodeComponent returns no error")
+	_ = gw.Flush()
+	gr := NewGolombReader(bytes.NewReader(buf.Bytes()))
+	dpix := make([]int, 6)
+	err = dec.decodeComponent(gr, dpix, 0)
+	vrt.Assert(err == nil, "C03 decodeComponent returns no error")
+	d := 0
+	for i := range src {
+		d |= dpix[i] ^ src[i]
+	}
+	vrt.Assert(d == 0, "C03 single-component coder: decoded samples equal the source (3x2, last sample and its context state arbitrary)")
+	vrt.Assert(qs != 0, "C03 harness: last sample is coded in regular mode")
+	vrt.Out("px", dpix[5])
+}
+
+// VerifC03BitChannel: K writes of n_i bits (widths up to 31) with symbolic
+// values - the solver is free to make any output byte FF, so every stuffing
+// case incl. two consecutive stuffed bytes in one flush is covered - then
+// Flush; the reader returns the same values, and after an FF byte the next
+// byte has its top bit clear.
+func VerifC03BitChannel() {
+	k := vrt.Choice("k", 1, vrt.Param("maxK", 3))
+	var buf bytes.Buffer
+	gw := NewGolombWriter(&buf)
+	ns := make([]int, k)
+	vs := make([]uint32, k)
+	for i := 0; i < k; i++ {
+		ns[i] = []int{31, 16, 9, 1, 24, 7}[vrt.Choice("n", 0, vrt.Param("widths", 4)-1)]
+		vs[i] = uint32(vrt.Int("v", 0, 1<<uint(ns[i])-1))
+		vrt.Assert(gw.WriteBits(vs[i], ns[i]) == nil, "C03 WriteBits returns no error")
+	}
+	vrt.Assert(gw.Flush() == nil, "C03 Flush returns no error")
+	b := buf.Bytes()
+	bad := 0
+	for i := 0; i+1 < len(b); i++ {
+		if b[i] == 0xFF && b[i+1] >= 0x80 {
+			bad |= 1
+		}
+	}
+	vrt.Assert(bad == 0, "C16 JPEG-LS entropy-coded bytes: a byte after FF has its top bit clear")
+	gr := NewGolombReader(bytes.NewReader(b))
+	d := uint32(0)
+	for i := 0; i < k; i++ {
+		got, err := gr.ReadBits(ns[i])
+		vrt.Assert(err == nil, "C03 ReadBits returns no error")
+		d |= got ^ vs[i]
+		vrt.Out("v", int(got))
+	}
+	vrt.Assert(d == 0, "C03 JPEG-LS bit channel returns the written values")
 }
